@@ -127,6 +127,21 @@ MUTANTS = [
  M("c17-suspend-no-validator-factor", "C17", "C17.suspend", (NODEF, "tooManyUndeterminedEvents := newUndeterminedEvents > n.conf.SuspendLimit*n.core.validators.Len()", "tooManyUndeterminedEvents := newUndeterminedEvents > n.conf.SuspendLimit*10")),
  M("c17-check-suspend-only-when-gossip", "C17", "C17.suspend", (NODEF, "\t\t\tn.resetTimer()\n\t\t\tn.checkSuspend()\n", "\t\t\tn.resetTimer()\n\t\t\tif gossip {\n\t\t\t\tn.checkSuspend()\n\t\t\t}\n")),
  M("c17-suspend-wait-first", "C17", "C17.suspend", (NODEF, "\t\tn.transition(_state.Suspended)\n\n\t\t// Stop and wait for concurrent operations\n\t\tclose(n.suspendCh)\n\t\tn.WaitRoutines()\n", "\t\t// Stop and wait for concurrent operations\n\t\tclose(n.suspendCh)\n\t\tn.WaitRoutines()\n\n\t\tn.transition(_state.Suspended)\n")),
+ # ---- C08 (after the fixes: each guard removed in turn)
+ M("c08-hex-no-length-test", "C08", "C08.const", ("src/common/hex.go", "\tif len(hexString) < 2 {\n\t\treturn nil, fmt.Errorf(\"hex string too short\")\n\t}\n", "\tif len(hexString) < 1 {\n\t\treturn nil, fmt.Errorf(\"hex string too short\")\n\t}\n")),
+ M("c08-setstring-ok-dropped", "C08", "C08.parse", ("src/crypto/keys/signature.go", "\ts, ok = new(big.Int).SetString(values[1], 36)\n\tif !ok {\n\t\treturn nil, nil, fmt.Errorf(\"invalid S value in signature\")\n\t}\n", "\ts, _ = new(big.Int).SetString(values[1], 36)\n")),
+ M("c08-verify-no-r-guard", "C08", "C08.sink", ("src/crypto/keys/signature.go", "if pub == nil || pub.X == nil || pub.Y == nil || r == nil || s == nil {", "if pub == nil || pub.X == nil || pub.Y == nil || s == nil {")),
+ M("c08-verify-no-x-guard", "C08", "C08.sink", ("src/crypto/keys/signature.go", "if pub == nil || pub.X == nil || pub.Y == nil || r == nil || s == nil {", "if pub == nil || r == nil || s == nil {")),
+ M("c08-limit-not-clamped", "C08", "C08.bounds", (RPC, "\t\tif limit < 0 {\n\t\t\tlimit = 0\n\t\t}\n", "")),
+ M("c08-limit-upper-guard-dropped", "C08", "C08.bounds", (RPC, "\t\tif limit < len(eventDiff) {\n\t\t\teventDiff = eventDiff[:limit]\n\t\t}", "\t\tif limit < len(eventDiff) || cmd.SyncLimit > 0 {\n\t\t\teventDiff = eventDiff[:limit]\n\t\t}")),
+ M("c08-shape-check-after-use", "C08", "C08.shape", (CORE, "\tif err := checkFastForwardShape(block, frame); err != nil {\n\t\treturn err\n\t}\n\n\tpeerSet := peers.NewPeerSet(frame.Peers)\n", "\tpeerSet := peers.NewPeerSet(frame.Peers)\n\n\tif err := checkFastForwardShape(block, frame); err != nil {\n\t\treturn err\n\t}\n")),
+ M("c08-shape-no-core-check", "C08", "C08.shape", (CORE, "if fe == nil || fe.Core == nil || len(fe.Core.Body.Parents) != 2 {", "if fe == nil || len(fe.Core.Body.Parents) != 2 {")),
+ M("c08-shape-no-parents-check", "C08", "C08.shape", (CORE, "if fe == nil || fe.Core == nil || len(fe.Core.Body.Parents) != 2 {", "if fe == nil || fe.Core == nil {")),
+ M("c08-shape-peersets-unchecked", "C08", "C08.shape", (CORE, "\tfor _, ps := range frame.PeerSets {\n\t\tif err := checkPeers(ps); err != nil {\n\t\t\treturn err\n\t\t}\n\t}\n", "")),
+ M("c08-less-ignores-error", "C08", "C08.parse", ("src/hashgraph/event.go", "\tif erri != nil || errj != nil {", "\tif erri != nil && errj != nil {")),
+ M("c08-dispatch-undecoded", "C08", "C08.dispatch", ("src/net/net_transport.go", "\tdefault:\n\t\treturn fmt.Errorf(\"unknown rpc type %d\", rpcType)\n\t}\n\n\t// Dispatch the RPC", "\tdefault:\n\t\tn.logger.Debugf(\"unknown rpc type %d\", rpcType)\n\t}\n\n\t// Dispatch the RPC")),
+ M("c08-promise-deferred-delete", "C08", "C08.respond", (CORE, "\t\t\tdelete(c.promises, r.InternalTransaction.HashString())\n", "\t\t\tdefer delete(c.promises, r.InternalTransaction.HashString())\n")),
+ M("c08-parents-one-element", "C08", "C08.const", (HGF, "\t\tParents:              []string{selfParent, otherParent},", "\t\tParents:              append([]string{selfParent}, otherParent)[:1+len(otherParent)/64],")),
 ]
 
 BENIGN = [
@@ -159,4 +174,8 @@ BENIGN = [
 
  B("c17-benign-switch-gate", "C17", (RPC, "\tif state := n.GetState(); !(state == _state.Babbling ||\n\t\t(state == _state.Suspended && isSyncRequest)) {\n", "\tstate := n.GetState()\n\tadmitted := false\n\tswitch {\n\tcase state == _state.Babbling:\n\t\tadmitted = true\n\tcase state == _state.Suspended && isSyncRequest:\n\t\tadmitted = true\n\t}\n\tif !admitted {\n")),
  B("c17-benign-gt-swapped", "C17", (NODEF, "tooManyUndeterminedEvents := newUndeterminedEvents > n.conf.SuspendLimit*n.core.validators.Len()", "tooManyUndeterminedEvents := n.core.validators.Len()*n.conf.SuspendLimit < newUndeterminedEvents")),
+
+ B("c08-benign-guards-split", "C08", ("src/crypto/keys/signature.go", "\tif pub == nil || pub.X == nil || pub.Y == nil || r == nil || s == nil {\n\t\treturn false\n\t}\n", "\tif pub == nil || r == nil || s == nil {\n\t\treturn false\n\t}\n\tif pub.X == nil || pub.Y == nil {\n\t\treturn false\n\t}\n")),
+ B("c08-benign-limit-reject", "C08", (RPC, "\t\tif limit < 0 {\n\t\t\tlimit = 0\n\t\t}\n", "\t\tif !(limit >= 0) {\n\t\t\tlimit = 0\n\t\t}\n")),
+ B("c08-benign-hex-prefix-check", "C08", ("src/common/hex.go", "\tif len(hexString) < 2 {", "\tif !(len(hexString) >= 2) {")),
 ]
